@@ -5,8 +5,8 @@ import filtercommon as fc
 import vlib
 
 REPOS = 'foo,foo/a,foo/b,fooey'
-PREFIXES_Q = ['a', 'pfx/sub']
-PREFIXES_T = ['a', 'pfx/sub', 'foo', 'a/b/c', 'x-1.y_z/q0']
+PREFIXES_Q = ['a', 'pfx/sub', 'org,team', 'a,a']     # 'p,q' = Sub(Sub(backend, p), q)
+PREFIXES_T = ['a', 'pfx/sub', 'org,team', 'a,a', 'foo', 'a/b/c', 'x-1.y_z/q0', 'x,y/z,w']
 
 
 def run(ctx):
@@ -26,7 +26,7 @@ def run(ctx):
         t = os.path.join(td, 'tlc-%s.ndjson' % nm)
         fc.run_filter(ctx, vh, t, cases=cp, repos=REPOS, prefix='foo', kinds='sub')
         traces.append(t)
-    nrand = 40 if quick else 2000
+    nrand = 48 if quick else 2000
     prefixes = PREFIXES_Q if quick else PREFIXES_T
     per = max(1, nrand // len(prefixes))
     i = 0
